@@ -553,6 +553,16 @@ Section UniqueEq.
 End UniqueEq.
 
 
+Fixpoint no_int_quant {A} (f : formula A) : bool :=
+  match f with
+  | FNot g => no_int_quant g
+  | FAnd fs | FOr fs => forallb no_int_quant fs
+  | FForall _ _ _ b | FExists _ _ _ b => no_int_quant b
+  | FForallInt _ _ | FExistsInt _ _ => false
+  | _ => true
+  end.
+
+
 Section Rename.
   Variables A D : Type.
   Variable O : ops A.
@@ -860,8 +870,9 @@ Section Rename.
     - intros e g. apply (subst_ev rho Hkt b Fb Fd). intros x Hx. unfold bindl.
       destruct (mem_var x own) eqn:E.
       + apply mem_var_In in E.
-        rewrite (index_of_map (lookup rho) x own); [reflexivity|].
-        intros y Hy. now apply (rho_eqb own used1 rho used2 Hfv).
+        rewrite (index_of_map (lookup rho) x own).
+        * destruct (index_of x own) as [k|] eqn:Ei; [reflexivity|]. apply index_of_none in Ei. contradiction.
+        * intros y Hy. now apply (rho_eqb own used1 rho used2 Hfv).
       + apply mem_var_false in E. rewrite (rho_out own used1 rho used2 Hfv x E).
         rewrite (proj2 (index_of_none x own) E).
         now rewrite (proj2 (index_of_none x (map (lookup rho) own)) (Fe x Hx E)).
@@ -885,4 +896,329 @@ Section Rename.
       subst y' n. now apply (rho_img_added own used1 rho used2 Hfv).
   Qed.
 
+  (* ----- the caller-visible set only grows ----- *)
+  Lemma ulist_mono k : (forall (f : form) used g u, Unique O k f used = Some (g, u) -> incl used u) ->
+    forall l used gs u, ulist O k l used = Some (gs, u) -> incl used u.
+  Proof.
+    intros IH. induction l as [|a l IHl]; intros used gs u H; cbn [ulist] in H.
+    - inversion H. apply incl_refl.
+    - destruct (Unique O k a used) as [[a' u']|] eqn:Ha; [|discriminate].
+      destruct (ulist O k l u') as [[r u'']|] eqn:Hr; [|discriminate]. inversion H. subst.
+      apply (incl_tran (IH _ _ _ _ Ha)). apply (IHl _ _ _ Hr).
+  Qed.
+
+  Lemma unique_mono : forall fuel (f : form) used g u, Unique O fuel f used = Some (g, u) -> incl used u.
+  Proof.
+    induction fuel as [|k IH]; intros f used g u H; [discriminate|].
+    destruct f as [a|n xs|n xs|f|fs|fs|v i m b|v i m b|v b|v b];
+      try (unfold Unique in H; simpl in H; inversion H; apply incl_refl).
+    - unfold Unique in H. cbn [ensure_unique] in H. fold (Unique O k f used) in H.
+      destruct (Unique O k f used) as [[g' u']|] eqn:Hg; [|discriminate]. inversion H. subst.
+      apply (IH _ _ _ _ Hg).
+    - rewrite unique_and in H. destruct (ulist O k fs used) as [[gs u']|] eqn:Hl; [|discriminate].
+      inversion H. subst. apply (ulist_mono k IH _ _ _ _ Hl).
+    - rewrite unique_or in H. destruct (ulist O k fs used) as [[gs u']|] eqn:Hl; [|discriminate].
+      inversion H. subst. apply (ulist_mono k IH _ _ _ _ Hl).
+    - rewrite unique_forall in H. unfold quant_result in H. cbv zeta in H.
+      destruct (fresh_vars (q_bound v m) _) as [rho used2] eqn:Hfv.
+      destruct (Unique O k (Subst O rho b) _) as [[b'' u'']|]; [|discriminate]. inversion H. subst.
+      intros n Hn. apply (rho_used2 _ _ _ _ Hfv). apply in_or_app. now right.
+    - rewrite unique_exists in H. unfold quant_result in H. cbv zeta in H.
+      destruct (fresh_vars (q_bound v m) _) as [rho used2] eqn:Hfv.
+      destruct (Unique O k (Subst O rho b) _) as [[b'' u'']|]; [|discriminate]. inversion H. subst.
+      intros n Hn. apply (rho_used2 _ _ _ _ Hfv). apply in_or_app. now right.
+  Qed.
+
+  (* ----- MAIN: ensure_unique_bound_variables keeps the verdict on formulas without shadowing ----- *)
+  Theorem rename_sound : forall fuel (f : form) used g u, Unique O fuel f used = Some (g, u) ->
+    forall bound, K_shadow bound f = false -> scoped bound f -> binders_bound f -> incl bound used ->
+    forall e, EV e g = EV e f.
+  Proof.
+    induction fuel as [|k IH]; intros f used g u H bound HK Hsc Hbb Hbu e; [discriminate|].
+    assert (Hlist : forall fs used0 gs u0, ulist O k fs used0 = Some (gs, u0) ->
+      forall bound0, (forall a, In a fs -> K_shadow bound0 a = false /\ scoped bound0 a /\ binders_bound a) ->
+      incl bound0 used0 -> Forall2 (fun a g' => forall e', EV e' g' = EV e' a) fs gs).
+    { induction fs as [|a fs IHfs]; intros used0 gs u0 Hm bound0 Hall Hb0; cbn [ulist] in Hm.
+      - inversion Hm. constructor.
+      - destruct (Unique O k a used0) as [[a' u']|] eqn:Ha; [|discriminate].
+        destruct (ulist O k fs u') as [[r u'']|] eqn:Hr; [|discriminate]. inversion Hm. subst.
+        destruct (Hall a (or_introl eq_refl)) as [Ha1 [Ha2 Ha3]]. constructor.
+        + intros e'. apply (IH _ _ _ _ Ha bound0 Ha1 Ha2 Ha3 Hb0).
+        + apply (IHfs _ _ _ Hr bound0).
+          * intros x Hx. apply Hall. now right.
+          * apply (incl_tran Hb0). apply (unique_mono _ _ _ _ _ Ha). }
+    destruct f as [a|n xs|n xs|f|fs|fs|v i m b|v i m b|v b|v b];
+      try (unfold Unique in H; simpl in H; inversion H; reflexivity).
+    - unfold Unique in H. cbn [ensure_unique] in H. fold (Unique O k f used) in H.
+      destruct (Unique O k f used) as [[g' u']|] eqn:Hg; [|discriminate]. inversion H. subst.
+      simpl. f_equal. apply (IH _ _ _ _ Hg bound); assumption.
+    - rewrite unique_and in H. destruct (ulist O k fs used) as [[gs u']|] eqn:Hl; [|discriminate].
+      inversion H. subst.
+      assert (HF : Forall2 (fun a g' => forall e', EV e' g' = EV e' a) fs gs).
+      { apply (Hlist _ _ _ _ Hl bound); [|assumption]. intros a Ha. split; [|split].
+        - simpl in HK. now apply (proj1 (existsb_false_In _ _) HK).
+        - intros x Hx. apply Hsc. simpl. apply in_flat_map. now exists a.
+        - intros w Hw. apply Hbb. simpl. apply in_flat_map. now exists a. }
+      change (EV e (reduce1 A (And O) (TrueF O) gs) = forallb (fun x => EV e x) fs).
+      rewrite (reduce_and_sound A _ O SM HS). clear -HF.
+      induction HF as [|a g' fs gs Hag _ IHF]; simpl; [reflexivity|]. now rewrite Hag, IHF.
+    - rewrite unique_or in H. destruct (ulist O k fs used) as [[gs u']|] eqn:Hl; [|discriminate].
+      inversion H. subst.
+      assert (HF : Forall2 (fun a g' => forall e', EV e' g' = EV e' a) fs gs).
+      { apply (Hlist _ _ _ _ Hl bound); [|assumption]. intros a Ha. split; [|split].
+        - simpl in HK. now apply (proj1 (existsb_false_In _ _) HK).
+        - intros x Hx. apply Hsc. simpl. apply in_flat_map. now exists a.
+        - intros w Hw. apply Hbb. simpl. apply in_flat_map. now exists a. }
+      change (EV e (reduce1 A (Or O) (FalseF O) gs) = existsb (fun x => EV e x) fs).
+      rewrite (reduce_or_sound A _ O SM HS). clear -HF.
+      induction HF as [|a g' fs gs Hag _ IHF]; simpl; [reflexivity|]. now rewrite Hag, IHF.
+    - rewrite unique_forall in H. unfold quant_result in H. cbv zeta in H.
+      destruct (fresh_vars (q_bound v m) _) as [rho used2] eqn:Hfv.
+      cbn [K_shadow] in HK. apply orb_false_iff in HK. destruct HK as [H1 H2].
+      destruct (quant_step v i m b bound used rho used2 Hfv Hbb H1 H2 Hsc Hbu)
+        as [Hkt [Q1 [Q2 [Q3 [Q4 [Q5 [Q6 Q7]]]]]]].
+      destruct (Unique O k (Subst O rho b) _) as [[b'' u'']|] eqn:Hb; [|discriminate]. inversion H. subst g u.
+      cbn [ev s_qdom sem_of]. rewrite Q1, Q2, (proj2 (Hkt v)), (mshape_subst _ _ Hkt), !forallb_map.
+      apply forallb_ext_in. intros g0 _. rewrite (IH _ _ _ _ Hb _ Q5 Q6 Q4 Q7). apply Q3.
+    - rewrite unique_exists in H. unfold quant_result in H. cbv zeta in H.
+      destruct (fresh_vars (q_bound v m) _) as [rho used2] eqn:Hfv.
+      cbn [K_shadow] in HK. apply orb_false_iff in HK. destruct HK as [H1 H2].
+      destruct (quant_step v i m b bound used rho used2 Hfv Hbb H1 H2 Hsc Hbu)
+        as [Hkt [Q1 [Q2 [Q3 [Q4 [Q5 [Q6 Q7]]]]]]].
+      destruct (Unique O k (Subst O rho b) _) as [[b'' u'']|] eqn:Hb; [|discriminate]. inversion H. subst g u.
+      cbn [ev s_qdom sem_of]. rewrite Q1, Q2, (proj2 (Hkt v)), (mshape_subst _ _ Hkt), !existsb_map.
+      apply existsb_ext_in. intros g0 _. rewrite (IH _ _ _ _ Hb _ Q5 Q6 Q4 Q7). apply Q3.
+  Qed.
+
+  (* ----- what the output guarantees about names: no re-binding along any nesting chain ----- *)
+  Lemma no_int_subst rho : forall (f : form), no_int_quant f = true -> no_int_quant (Subst O rho f) = true.
+  Proof.
+    unfold Subst.
+    induction f as [a|n xs|n xs|f IH|fs IH|fs IH|v i m b IH|v i m b IH|v b IH|v b IH] using formula_ind';
+      intros Hn; try reflexivity; try discriminate.
+    - simpl in *. now apply IH.
+    - change (no_int_quant (reduce1 A (And O) (TrueF O) (map (Subst O rho) fs)) = true).
+      apply (P_reduce_and A O (fun g => no_int_quant g = true)); try reflexivity.
+      + intros a b Ha Hb. simpl. now rewrite Ha, Hb.
+      + apply Forall_forall. intros g Hg. apply in_map_iff in Hg. destruct Hg as [a [Hga Hin]]. subst g.
+        apply (Forall_In _ _ IH a Hin). simpl in Hn. rewrite forallb_forall in Hn. now apply Hn.
+    - change (no_int_quant (reduce1 A (Or O) (FalseF O) (map (Subst O rho) fs)) = true).
+      apply (P_reduce_or A O (fun g => no_int_quant g = true)); try reflexivity.
+      + intros a b Ha Hb. simpl. now rewrite Ha, Hb.
+      + apply Forall_forall. intros g Hg. apply in_map_iff in Hg. destruct Hg as [a [Hga Hin]]. subst g.
+        apply (Forall_In _ _ IH a Hin). simpl in Hn. rewrite forallb_forall in Hn. now apply Hn.
+    - simpl in *. now apply IH.
+    - simpl in *. now apply IH.
+  Qed.
+
+  Lemma spine_step v m (b : form) used rho used2 (b'' : form) :
+    let own := q_bound v m in
+    let used1 := names_not_in (uniq_vars (v :: mexpr_bvars m ++ BV b)) own ++ used in
+    fresh_vars own used1 = (rho, used2) ->
+    (forall w, In w (v :: mexpr_bvars m ++ BV b) -> vk w = VBound) ->
+    K_shadow (firstn (length used2 - length used1) used2 ++ used) b'' = false ->
+    binders_bound (Subst O rho b) /\
+    existsb (fun n => mem_str n used) (map vname (q_bound (lookup rho v) (option_map (subst_mexpr rho) m))) = false /\
+    K_shadow (map vname (q_bound (lookup rho v) (option_map (subst_mexpr rho) m)) ++ used) b'' = false.
+  Proof.
+    intros own used1 Hfv Hbb HK.
+    assert (HownB : forall x, In x own -> vk x = VBound).
+    { intros x Hx. apply q_bound_In in Hx. apply Hbb. simpl.
+      destruct Hx as [Hx|Hx]; [now left | right; apply in_or_app; now left]. }
+    pose proof (rho_kt own used1 rho used2 Hfv HownB) as Hkt.
+    assert (Hq : forall z, In z (q_bound (lookup rho v) (option_map (subst_mexpr rho) m)) ->
+                 exists y, In y own /\ z = lookup rho y).
+    { intros z Hz. apply q_bound_In in Hz. rewrite (mexpr_bvars_subst _ _ Hkt) in Hz. destruct Hz as [Hz|Hz].
+      - exists v. split; [|assumption]. apply (proj2 (q_bound_In v v m)). now left.
+      - apply in_map_iff in Hz. destruct Hz as [y [Hy Hin]]. exists y. split; [|now symmetry].
+        apply (proj2 (q_bound_In y v m)). now right. }
+    split; [|split].
+    - intros w Hw. destruct (bvars_subst rho Hkt b w Hw) as [w0 [Hw0 Hr]]. subst w.
+      rewrite (proj1 (Hkt w0)). apply Hbb. simpl. right. apply in_or_app. now right.
+    - apply existsb_false_In. intros n Hn. apply in_map_iff in Hn. destruct Hn as [z [Hzn Hz]]. subst n.
+      destruct (Hq z Hz) as [y [Hy Hr]]. subst z. apply mem_str_false. intros Hin.
+      destruct (rho_ok own used1 rho used2 Hfv y Hy) as [_ Hn]. apply Hn. unfold used1. apply in_or_app. now right.
+    - apply (K_shadow_incl A b'' _ _ ) with (2 := HK). intros n Hn. apply in_app_or in Hn. apply in_or_app.
+      destruct Hn as [Hn|Hn]; [left | now right].
+      apply in_map_iff in Hn. destruct Hn as [z [Hzn Hz]]. subst n.
+      destruct (Hq z Hz) as [y [Hy Hr]]. subst z. now apply (rho_img_added own used1 rho used2 Hfv).
+  Qed.
+
+  Theorem unique_spine : forall fuel (f : form) used g u, Unique O fuel f used = Some (g, u) ->
+    no_int_quant f = true -> binders_bound f -> K_shadow used g = false.
+  Proof.
+    induction fuel as [|k IH]; intros f used g u H Hni Hbb; [discriminate|].
+    assert (Hlist : forall fs used0 gs u0, ulist O k fs used0 = Some (gs, u0) ->
+      (forall a, In a fs -> no_int_quant a = true /\ binders_bound a) ->
+      Forall (fun g' => K_shadow used0 g' = false) gs).
+    { induction fs as [|a fs IHfs]; intros used0 gs u0 Hm Hall; cbn [ulist] in Hm.
+      - inversion Hm. constructor.
+      - destruct (Unique O k a used0) as [[a' u']|] eqn:Ha; [|discriminate].
+        destruct (ulist O k fs u') as [[r u'']|] eqn:Hr; [|discriminate]. inversion Hm. subst.
+        destruct (Hall a (or_introl eq_refl)) as [Ha1 Ha2]. constructor.
+        + apply (IH _ _ _ _ Ha Ha1 Ha2).
+        + assert (HF : Forall (fun g' => K_shadow u' g' = false) r).
+          { apply (IHfs _ _ _ Hr). intros x Hx. apply Hall. now right. }
+          rewrite Forall_forall in *. intros g' Hg'.
+          apply (K_shadow_incl A g' used0 u' (unique_mono _ _ _ _ _ Ha)). now apply HF. }
+    destruct f as [a|n xs|n xs|f|fs|fs|v i m b|v i m b|v b|v b];
+      try (unfold Unique in H; simpl in H; inversion H; reflexivity); try discriminate.
+    - unfold Unique in H. cbn [ensure_unique] in H. fold (Unique O k f used) in H.
+      destruct (Unique O k f used) as [[g' u']|] eqn:Hg; [|discriminate]. inversion H. subst.
+      simpl. apply (IH _ _ _ _ Hg); assumption.
+    - rewrite unique_and in H. destruct (ulist O k fs used) as [[gs u']|] eqn:Hl; [|discriminate].
+      inversion H. subst.
+      apply (P_reduce_and A O (fun g => K_shadow used g = false)); try reflexivity.
+      + intros a b Ha Hb. simpl. now rewrite Ha, Hb.
+      + apply (Hlist _ _ _ _ Hl). intros a Ha. split.
+        * simpl in Hni. rewrite forallb_forall in Hni. now apply Hni.
+        * intros w Hw. apply Hbb. simpl. apply in_flat_map. now exists a.
+    - rewrite unique_or in H. destruct (ulist O k fs used) as [[gs u']|] eqn:Hl; [|discriminate].
+      inversion H. subst.
+      apply (P_reduce_or A O (fun g => K_shadow used g = false)); try reflexivity.
+      + intros a b Ha Hb. simpl. now rewrite Ha, Hb.
+      + apply (Hlist _ _ _ _ Hl). intros a Ha. split.
+        * simpl in Hni. rewrite forallb_forall in Hni. now apply Hni.
+        * intros w Hw. apply Hbb. simpl. apply in_flat_map. now exists a.
+    - rewrite unique_forall in H. unfold quant_result in H. cbv zeta in H.
+      destruct (fresh_vars (q_bound v m) _) as [rho used2] eqn:Hfv.
+      destruct (Unique O k (Subst O rho b) _) as [[b'' u'']|] eqn:Hb; [|discriminate]. inversion H. subst g u.
+      assert (Hbb' : binders_bound (Subst O rho b)).
+      { pose proof (spine_step v m b used rho used2 (TrueF O) Hfv Hbb eq_refl) as [Hx _]. exact Hx. }
+      pose proof (IH _ _ _ _ Hb (no_int_subst rho b Hni) Hbb') as HKb.
+      destruct (spine_step v m b used rho used2 b'' Hfv Hbb HKb) as [_ [S1 S2]].
+      cbn [K_shadow]. now rewrite S1, S2.
+    - rewrite unique_exists in H. unfold quant_result in H. cbv zeta in H.
+      destruct (fresh_vars (q_bound v m) _) as [rho used2] eqn:Hfv.
+      destruct (Unique O k (Subst O rho b) _) as [[b'' u'']|] eqn:Hb; [|discriminate]. inversion H. subst g u.
+      assert (Hbb' : binders_bound (Subst O rho b)).
+      { pose proof (spine_step v m b used rho used2 (TrueF O) Hfv Hbb eq_refl) as [Hx _]. exact Hx. }
+      pose proof (IH _ _ _ _ Hb (no_int_subst rho b Hni) Hbb') as HKb.
+      destruct (spine_step v m b used rho used2 b'' Hfv Hbb HKb) as [_ [S1 S2]].
+      cbn [K_shadow]. now rewrite S1, S2.
+  Qed.
+
 End Rename.
+
+Arguments binders_bound {A}. Arguments scoped {A}.
+Arguments PVd {D}. Arguments PVs {D}. Arguments PVt {D}.
+
+(* ================= concrete instance: non-vacuity and refutation witnesses ================= *)
+(* a name-SENSITIVE interpretation keyed by the full variable: assignments var -> string; a tree
+   quantifier `v in w` ranges over the characters of the value of w (every own variable of the
+   quantifier receives the character); numeric quantifiers over "0", "1" *)
+Definition cafv (a : catom) : list var := match a with CEq v _ _ => [v] | _ => [] end.
+
+Definition cnsem : nsem catom str :=
+  MkNSem catom str
+    (fun e a => match a with
+                | CTrue => true | CFalse => false
+                | CEq v s n => xorb n (str_eqb (e v) s)
+                end)
+    (fun _ _ xs => match xs with [PVd a; PVd b] => str_eqb a b | _ => false end)
+    (fun t => lbl t)
+    (fun d _ _ => map (fun c (_ : nat) => [c]) d)
+    [[48%N]; [49%N]].
+
+Example atoms_sound_cnsem : atoms_sound cops_t (sem_of cnsem).
+Proof.
+  repeat split.
+  - intros a b H e. destruct a as [| |v s n], b as [| |w t m]; simpl in H; try discriminate; try reflexivity.
+    apply andb_true_iff in H. destruct H as [H Hn]. apply andb_true_iff in H. destruct H as [Hv Hs].
+    apply var_eqb_eq in Hv. apply str_eqb_eq in Hs. apply Bool.eqb_prop in Hn. now subst.
+  - intros a H e. now destruct a.
+  - intros a H e. now destruct a.
+  - intros e b a. destruct a as [| |v s n]; simpl; [now destruct b | now destruct b |].
+    now rewrite xorb_assoc.
+  - intros e v i m m' H. now apply sem_of_qdom_eq.
+Qed.
+
+Example atoms_rename_cnsem : atoms_rename cops_t cnsem cafv.
+Proof.
+  constructor.
+  - intros e1 e2 a H. destruct a as [| |v s n]; simpl; try reflexivity. rewrite (H v); [reflexivity | now left].
+  - intros e rho a. now destruct a.
+  - intros rho a x Hx. destruct a as [| |v s n]; simpl in Hx; try (now destruct Hx).
+    destruct Hx as [Hx|[]]. exists v. split; [now left | now symmetry].
+  - reflexivity.
+  - reflexivity.
+Qed.
+
+Definition v_y := MkVar VBound (s_of [121]%N) (s_of [60;98;62]%N).
+Definition v_y0 := MkVar VBound (s_of [121;95;48]%N) (s_of [60;98;62]%N).
+Definition y_is (v : var) (c : N) : cform := FSmt (CEq v (s_of [c]) false).
+
+(* (forall x in start: (forall y in x: y = "a") and (forall y in x: y = "b")) and forall y_0 in start: y_0 = "c"
+   - no shadowing, closed w.r.t. bound variables *)
+Definition w_sibling : cform :=
+  FAnd [FForall v_x (InVar v_start) None
+          (FAnd [FForall v_y (InVar v_x) None (y_is v_y 97); FForall v_y (InVar v_x) None (y_is v_y 98)]);
+        FForall v_y0 (InVar v_start) None (y_is v_y0 99)].
+
+Fixpoint nodup_str (l : list str) : bool :=
+  match l with [] => true | x :: l' => negb (mem_str x l') && nodup_str l' end.
+(* all quantifiers of g bind pairwise different names *)
+Definition bound_unique {A} (g : formula A) : bool := nodup_str (map vname (bvars A g)).
+
+Lemma w_sibling_hyps :
+  K_shadow [] w_sibling = false /\ scoped cafv [] w_sibling /\ binders_bound w_sibling /\
+  no_int_quant w_sibling = true.
+Proof.
+  split; [reflexivity|]. split; [|split; [|reflexivity]].
+  - intros x Hx Hk. simpl in Hx.
+    repeat (destruct Hx as [Hx|Hx]; [subst x; discriminate Hk|]). destruct Hx.
+  - intros w Hw. simpl in Hw.
+    repeat (destruct Hw as [Hw|Hw]; [subst w; reflexivity|]). destruct Hw.
+Qed.
+
+(* the renaming really happens on this input, and the result binds y_0 twice *)
+Lemma w_sibling_run : exists g u,
+  Unique cops_t 40 w_sibling [] = Some (g, u) /\ g <> w_sibling /\ bound_unique g = false.
+Proof. vm_compute. eexists. eexists. split; [reflexivity|]. split; [discriminate | reflexivity]. Qed.
+
+Lemma rename_sound_nonvacuous :
+  atoms_sound cops_t (sem_of cnsem) /\ atoms_rename cops_t cnsem cafv /\
+  K_shadow [] w_sibling = false /\ scoped cafv [] w_sibling /\ binders_bound w_sibling /\
+  exists g u, Unique cops_t 40 w_sibling [] = Some (g, u) /\ g <> w_sibling.
+Proof.
+  split; [exact atoms_sound_cnsem|]. split; [exact atoms_rename_cnsem|].
+  destruct w_sibling_hyps as [H1 [H2 [H3 _]]]. repeat (split; [assumption|]).
+  destruct w_sibling_run as [g [u [Hr [Hne _]]]]. exists g, u. now split.
+Qed.
+
+(* global uniqueness of bound names is NOT guaranteed, even on input without shadowing: names chosen
+   inside the recursion are not propagated to the caller's used_names *)
+Lemma unique_siblings_refuted : exists (f g : cform) u,
+  K_shadow [] f = false /\ no_int_quant f = true /\
+  Unique cops_t 40 f [] = Some (g, u) /\ bound_unique g = false.
+Proof.
+  destruct w_sibling_run as [g [u [Hr [_ Hb]]]]. exists w_sibling, g, u.
+  repeat split; try reflexivity; assumption.
+Qed.
+
+Lemma unique_spine_nonvacuous :
+  no_int_quant w_shadow = true /\ binders_bound w_shadow /\ K_shadow [] w_shadow = true /\
+  exists g u, Unique cops 20 w_shadow [] = Some (g, u) /\ K_shadow [] g = false.
+Proof.
+  split; [reflexivity|]. split.
+  - intros w Hw. simpl in Hw. repeat (destruct Hw as [Hw|Hw]; [subst w; reflexivity|]). destruct Hw.
+  - split; [reflexivity|]. vm_compute. eexists. eexists. split; reflexivity.
+Qed.
+
+(* the substitution lemma on a concrete capture-free renaming x -> z of  forall y in x: y = "a" *)
+Definition v_z := MkVar VBound (s_of [122]%N) (s_of [60;105;62]%N).
+Lemma subst_ev_nonvacuous :
+  let rho := [(v_x, v_z)] in let f : cform := FForall v_y (InVar v_x) None (y_is v_y 97) in
+  kt_preserving (lookup rho) /\
+  (forall w, In w (bvars catom f) -> lookup rho w = w) /\
+  (forall z, In (lookup rho z) (bvars catom f) -> lookup rho z = z) /\
+  Subst cops_t rho f <> f.
+Proof.
+  cbv zeta. split; [|split; [|split]].
+  - intros z. unfold lookup. simpl. destruct (var_eqb v_x z) eqn:E; [|split; reflexivity].
+    apply var_eqb_eq in E. subst z. split; reflexivity.
+  - intros w Hw. simpl in Hw. destruct Hw as [Hw|[]]. subst w. reflexivity.
+  - intros z Hz. simpl in Hz. destruct Hz as [Hz|[]]. unfold lookup in *. simpl in *.
+    destruct (var_eqb v_x z) eqn:E; [discriminate Hz | reflexivity].
+  - vm_compute. discriminate.
+Qed.
